@@ -544,7 +544,10 @@ class _FuncGrapher(ast.NodeVisitor):
 
     def visit_Attribute(self, node):
         name = _get_long_name(node.value)
-        if name is not None:
+        if name is None:
+            # attribute of an expression, e.g. (a * b).T or f(x).real: follow the expression
+            self.visit(node.value)
+        else:
             base = name.partition('.')[0]
             if base in self.graph:
                 self.names.append(base)
